@@ -74,7 +74,7 @@ def gen_task(rng):
             entry.append([k, c])
     res = []
     for i in range(NR):
-        r = rng.below(6)
+        r = rng.below(5)
         if r == 0:
             res.append([True, i])
         elif r == 1:
@@ -108,6 +108,17 @@ def hand_written():
         [t([["r", 0]]), t([["r", 0], ["or", 1]]), t([["or", 0]]), t([["id", -1], ["r", 0]])],
         # par systems
         [t([["m", 0]], par=True), t([["m", 1]], par=True), t([["m", 0], ["r", 1]], par=True)],
+        # resource-only conflicts where the resource holder is not the last task of its stage
+        [t([["m", 0]], res=[[True, 0]]), t([["m", 1]]), t([["m", 2]], res=[[True, 0]])],
+        [t([["m", 0]], res=[[False, 0]]), t([["m", 1]], res=[[False, 0]]), t([["m", 3]]), t([["m", 2]], res=[[True, 0]])],
+        [t([["r", 0]], res=[[True, 1]]), t([["r", 0]]), t([["r", 0]], res=[[False, 1]]), t([["r", 0]], res=[[True, 0]])],
+        # optional views: writer through Option<&mut> followed by a reader, and the reverse
+        [t([["om", 0]]), t([["r", 0], ["m", 2]])],
+        [t([["r", 0]]), t([["om", 0]]), t([["or", 0]])],
+        # the same component viewed optionally in views and entry views (merged claim stays shared)
+        [t([["or", 0]], entry=[["or", 0]]), t([["r", 0]]), t([["or", 0]], entry=[["or", 0]])],
+        # identifier views next to readers and a disjoint writer
+        [t([["r", 0]]), t([["id", -1], ["r", 0]]), t([["id", -1], ["m", 1]])],
         # single task, empty views
         [t([])],
         [t([["id", -1]]), t([["m", 3]], ["or", ["has", 0], ["has", 1]])],
